@@ -271,7 +271,7 @@ Definition matom_eval (locals : list (nat * value)) (e : menv) (a : matom) : boo
   | MUser u => uatom_eval (fun x => mlookup (U x) e) u
   | MCompare ne i k =>
       match mlookup (M i) e, local_value k locals with
-      | Some v, Some o => xorb ne (veqb v o)
+      | Some v, Some o => vcmp ne v o
       | _, _ => false
       end
   end.
@@ -285,7 +285,7 @@ Definition run_diag (locals : list (nat * value)) (cargs : list value) (s : diag
                 | None => []
                 end
   | DCmp ne i k => match nth_opt cargs i, local_value k locals with
-                   | Some v, Some o => if xorb ne (veqb v o) then [] else [(i, if ne then MismatchNe else MismatchEq)]
+                   | Some v, Some o => if vcmp ne v o then [] else [(i, if ne then MismatchNe else MismatchEq)]
                    | _, _ => []
                    end
   end.
